@@ -110,7 +110,7 @@ PROPS = {
     },
     "C05": {
         "flavors": ["sync", "async"],
-        "streams": [("core", "sync", 60), ("core", "async", 60)],
+        "streams": [("core", "sync", 60), ("core", "async", 60), ("parallways", "sync", 60), ("parallways", "async", 80)],
         "oracles": [],
         "q_checks": [_lazy2("c05_cross_engine"), _lazy2("c05_pure")],
         "thorough_scale": 6,
